@@ -42,6 +42,7 @@ type Seen struct {
 	Blocked    []int   `json:"blocked"`
 	Registered []bool  `json:"registered"`
 	ElapsedMs  []int64 `json:"elapsed_ms"`
+	Zero       []bool  `json:"-"` // issued with a timeout of zero
 }
 
 type Failure struct {
@@ -78,7 +79,7 @@ func runCase(c *Case) (Seen, string) {
 		panic(err)
 	}
 	var mu sync.Mutex
-	seen := Seen{Outcome: make([][]int, n), Dead: [][]int{}, Blocked: []int{0, 0}, Registered: make([]bool, n), ElapsedMs: make([]int64, n)}
+	seen := Seen{Outcome: make([][]int, n), Dead: [][]int{}, Blocked: []int{0, 0}, Registered: make([]bool, n), ElapsedMs: make([]int64, n), Zero: make([]bool, n)}
 	for i := range seen.Outcome {
 		seen.Outcome[i] = []int{0, 0}
 	}
@@ -110,6 +111,7 @@ func runCase(c *Case) (Seen, string) {
 	nrep := make([]int, n+1)
 	var stuck chan struct{}
 	tstart := map[int]time.Time{} // Result() calls the behaviour has waiting
+	zero := map[int]bool{}
 	for _, op := range c.Hist {
 		if op.Op != "timeout" {
 			for _, t0 := range tstart {
@@ -121,6 +123,11 @@ func runCase(c *Case) (Seen, string) {
 		switch op.Op {
 		case "req":
 			resp[op.R] = e.Request(responder, request{op.R}, timeout)
+		case "req0":
+			// a request whose time budget is used up already
+			resp[op.R] = e.Request(responder, request{op.R}, 0)
+			zero[op.R] = true
+			seen.Zero[op.R-1] = true
 		case "reply":
 			nrep[op.R]++
 			ack := make(chan struct{})
@@ -240,7 +247,7 @@ func judge(c *Case, s Seen, problem string) string {
 		if !eq(c.Outcome[i], s.Outcome[i]) {
 			return fmt.Sprintf("Result() of request %d returned %v, expected %v ([r,k] = k-th reply to request r, [-1,-1] = timeout, [0,0] = not returned)", r, s.Outcome[i], c.Outcome[i])
 		}
-		if c.Outcome[i][0] == -1 && s.ElapsedMs[i] < timeout.Milliseconds()-1 {
+		if c.Outcome[i][0] == -1 && !s.Zero[i] && s.ElapsedMs[i] < timeout.Milliseconds()-1 {
 			return fmt.Sprintf("Result() of request %d reported a timeout after %d ms, before the timeout of %d ms had passed", r, s.ElapsedMs[i], timeout.Milliseconds())
 		}
 		if c.Outcome[i][0] != 0 && s.Registered[i] != c.Registered[i] {
